@@ -627,7 +627,9 @@ impl Scenario for RealDisk {
     }
     fn generate(&self, g: &mut Gen, _t: Tier, idx: u64) -> Value {
         let (fmt, elts) = FMTS[(idx % FMTS.len() as u64) as usize];
-        json!({"fmt": fmt, "elt": *g.pick(elts), "s0": g.usize(1, 3), "s1": g.usize(1, 5), "s2": g.usize(1, 3), "specials": false, "gseed": g.u64(), "path_kind": *g.pick(&["missing_dir", "is_dir", "ok", "dev_full"])})
+        json!({"fmt": fmt, "elt": *g.pick(elts), "s0": g.usize(1, 3), "s1": g.usize(1, 5), "s2": g.usize(1, 3), "specials": false, "gseed": g.u64(), "path_kind": *g.pick(&["missing_dir", "is_dir", "ok", "dev_full", "name_too_long"]),
+               // the file name: short ASCII, long ASCII, or non-ASCII (2-, 3-, 4-byte characters at every byte alignment)
+               "name_style": *g.pick(&["short", "short", "long_ascii", "unicode", "unicode"]), "name_len": g.usize(8, 230), "name_shift": g.usize(0, 3), "name_char": g.usize(0, 2)})
     }
     fn execute(&self, p: &Value, ws: bool) -> Outcome {
         let mut o = Outcome::default();
@@ -635,12 +637,33 @@ impl Scenario for RealDisk {
         let base = verif_dir().join("target").join("tmp-io").join(format!("{}-{:x}", std::process::id(), pu(p, "gseed")));
         let _ = std::fs::create_dir_all(&base);
         let kind = ps(p, "path_kind");
+        // file name of about `name_len` bytes (<= 255, the usual limit of one path component)
+        let style = p.get("name_style").and_then(|v| v.as_str()).unwrap_or("short");
+        let name_len = p.get("name_len").and_then(|v| v.as_u64()).unwrap_or(8) as usize;
+        let shift = p.get("name_shift").and_then(|v| v.as_u64()).unwrap_or(0) as usize;
+        let ch = ["\u{e9}", "\u{20ac}", "\u{1f600}"][p.get("name_char").and_then(|v| v.as_u64()).unwrap_or(0) as usize % 3];
+        let mut name = match style {
+            "long_ascii" => "a".repeat(name_len.min(240)),
+            "unicode" => {
+                let mut n = "x".repeat(shift);
+                while n.len() + ch.len() <= name_len.min(240) {
+                    n.push_str(ch);
+                }
+                n
+            }
+            _ => "out".to_string(),
+        };
+        name.push_str(".dat");
         let path = match kind {
-            "missing_dir" => base.join("no/such/dir/out.dat"),
+            "missing_dir" => base.join("no/such/dir").join(&name),
             "is_dir" => base.clone(),
             "dev_full" => std::path::PathBuf::from("/dev/full"),
-            _ => base.join("out.dat"),
+            // one component above the file system's limit: ENAMETOOLONG
+            "name_too_long" => base.join(format!("{}{}{}", name, "z".repeat(100), ch.repeat(100))),
+            _ => base.join(&name),
         };
+        o.count("probe_non_ascii_path", (!path.to_str().unwrap_or("").is_ascii()) as u64);
+        o.count("probe_path_longer_than_64_bytes", (path.to_str().unwrap_or("").len() > 64) as u64);
         sfs::uninstall();
         let _ = mcmc_sim::sim::take_last_panic();
         let r = std::panic::catch_unwind(std::panic::AssertUnwindSafe(|| (case.save)(path.to_str().unwrap())));
@@ -674,7 +697,7 @@ impl Scenario for RealDisk {
         o
     }
     fn rule(&self) -> &'static str {
-        "real file system (the File seam's pass-through mode): missing directory, a directory as the path, /dev/full, and a writable path with read-back; distinct = input hash"
+        "real file system (the File seam's pass-through mode): missing directory, a directory as the path, /dev/full, a component above NAME_MAX, and a writable path with read-back; file names short, long (up to 244 bytes) and non-ASCII (2-/3-/4-byte characters at every byte alignment); distinct = input hash"
     }
     fn components(&self) -> Value {
         json!({"real": ["save functions", "std::fs", "writers/readers"], "stub": []})
